@@ -196,21 +196,21 @@ static void reply(const char *conn1, const char *conn2, const char *xname)
 #define B1 "\x01"
 #define B2 "\x01\x01"
 #define B3 "\x01\x01\x01"
-#define B5 "\x01\x01\x01\x01\x01"
+#define B4 "\x01\x01\x01\x01"
 struct Family { const char *conn1, *conn2, *xname; };
 static const Family Families[] = {
     // 0 any: short fully symbolic Connection value
-    {T(B3, B5), nullptr, T("E", "xE")},
+    {T(B3, B4), nullptr, T("E", "xE")},
     // 1 two: two Connection header fields, the second fully symbolic
-    {"close", T(B3, B5), T("Xe", "X-e")},
+    {"close", T(B3, B4), T("Xe", "X-e")},
     // 2 tail: a standard option first, then a symbolic tail: separator, OWS, empty elements, the extension name in either case
-    {T("close" B3, "close" B5), nullptr, T("Xe", "X-e")},
+    {T("close" B3, "close" B4), nullptr, T("Xe", "X-e")},
     // 3 head: symbolic head before a standard option
-    {T(B3 "keep-alive", B5 "keep-alive"), nullptr, T("Xe", "X-e")},
+    {T(B3 "keep-alive", B4 "keep-alive"), nullptr, T("Xe", "X-e")},
     // 4 mid: symbolic separators/OWS between two concrete elements that name fields, then a symbolic element
-    {T("xe" B2 "x-keep" B1, "xe" B3 "x-keep" B2), nullptr, "xE"},
+    {T("xe" B2 "x-keep" B1, "xe" B3 "x-keep" B1), nullptr, "xE"},
     // 5 reg: a registered end-to-end name (Accept) listed with symbolic case/neighbours
-    {T(B1 "ccep" B2, B2 "cce" B3), nullptr, "Xe"},
+    {T(B1 "ccep" B2, B1 "cce" B3), nullptr, "Xe"},
     // 6 name: symbolic extension name against a partly symbolic list
     {T("close,xE" B1, "close,xE" B1 ",k" B1), nullptr, T("\x02\x02", "\x02\x02\x02")},
     // 7 flags: concrete header 'Connection: xE , close', extension field 'Xe' (request(): every flag and login mode symbolic)
